@@ -50,6 +50,20 @@ impl<T> List<T> {
     }
 }
 
+impl<T> Drop for List<T> {
+    /// Frees the nodes owned solely by this list iteratively. Without this, dropping the head
+    /// recurses once per node and overflows the stack for long histories.
+    fn drop(&mut self) {
+        let mut link = self.head.take();
+        while let Some(node) = link {
+            match Arc::into_inner(node) {
+                Some(mut node) => link = node.next.take(),
+                None => break,
+            }
+        }
+    }
+}
+
 impl<T> Clone for List<T> {
     fn clone(&self) -> Self {
         Self {
